@@ -1,12 +1,216 @@
 package main
 
 import (
+	"fmt"
 	"go/ast"
 	"go/types"
 )
 
+func isBuilderType(t types.Type) bool {
+	n, ok := types.Unalias(t).(*types.Named)
+	return ok && n.Obj().Pkg() != nil && n.Obj().Pkg().Path() == "strings" && n.Obj().Name() == "Builder"
+}
+
 // intrinsic: higher-order / stateful externs implemented natively by the engine.
+// Each one is an ASSUMED contract of the dependency, listed in the evidence.
 func (fv *FuncVC) intrinsic(call *ast.CallExpr, f *types.Func, full string, st *State) ([]Val, bool) {
+	switch full {
+	case "sort.Slice", "sort.SliceStable":
+		return fv.sortSlice(call, full == "sort.SliceStable", st)
+	case "sort.Strings":
+		return fv.sortStrings(call, st)
+	case "sort.Sort":
+		return fv.sortSort(call, st)
+	case "(*strings.Builder).WriteString", "(*strings.Builder).WriteByte", "(*strings.Builder).WriteRune", "(*strings.Builder).String", "(*strings.Builder).Len":
+		return fv.builderCall(call, full, st)
+	case "(*sync.Mutex).Lock", "(*sync.Mutex).Unlock":
+		return fv.mutexCall(call, full, st)
+	}
+	return nil, false
+}
+
+// strings.Builder held in a local variable is modelled by the string accumulated so far.
+func (fv *FuncVC) builderCall(call *ast.CallExpr, full string, st *State) ([]Val, bool) {
+	se, ok := ast.Unparen(call.Fun).(*ast.SelectorExpr)
+	if !ok {
+		return nil, false
+	}
+	id, ok := ast.Unparen(se.X).(*ast.Ident)
+	if !ok {
+		return nil, false
+	}
+	o := fv.info.ObjectOf(id)
+	cur, ok := st.vars[o]
+	if !ok || cur.S != SStr {
+		return nil, false
+	}
+	fv.usedExterns["strings.Builder (intrinsic): a Builder variable is the string written so far; WriteString/WriteByte append; String returns it"] = true
+	st_ := types.Typ[types.String]
+	switch full {
+	case "(*strings.Builder).WriteString":
+		a := fv.eval(call.Args[0], st)
+		st.vars[o] = fv.named(Val{sx("cat", cur.T, a.T), SStr, cur.GoT}, o.Name())
+		return []Val{{sx("slen", a.T), SInt, types.Typ[types.Int]}, {"nil", SRef, nil}}, true
+	case "(*strings.Builder).WriteByte":
+		a := fv.eval(call.Args[0], st)
+		st.vars[o] = fv.named(Val{sx("cat", cur.T, sx("str1", a.T)), SStr, cur.GoT}, o.Name())
+		return []Val{{"nil", SRef, nil}}, true
+	case "(*strings.Builder).WriteRune":
+		fv.note("strings.Builder.WriteRune")
+		fv.eval(call.Args[0], st)
+		st.vars[o] = fv.havocVal(st, o.Name(), cur.GoT)
+		return fv.freshResults(call, st), true
+	case "(*strings.Builder).String":
+		return []Val{{cur.T, SStr, st_}}, true
+	case "(*strings.Builder).Len":
+		return []Val{{sx("slen", cur.T), SInt, types.Typ[types.Int]}}, true
+	}
+	return nil, false
+}
+
+// closureLess evaluates the body of `func(i, j int) bool { return e }` with the parameters bound
+// to the given index terms, in state st, without emitting obligations or facts.
+func (fv *FuncVC) closureLess(fl *ast.FuncLit, st *State, i, j string) (string, bool) {
+	if len(fl.Body.List) != 1 {
+		return "", false
+	}
+	ret, ok := fl.Body.List[0].(*ast.ReturnStmt)
+	if !ok || len(ret.Results) != 1 {
+		return "", false
+	}
+	var params []*ast.Ident
+	for _, f := range fl.Type.Params.List {
+		params = append(params, f.Names...)
+	}
+	if len(params) != 2 {
+		return "", false
+	}
+	s := st.clone()
+	s.vars[fv.info.Defs[params[0]]] = Val{i, SInt, types.Typ[types.Int]}
+	s.vars[fv.info.Defs[params[1]]] = Val{j, SInt, types.Typ[types.Int]}
+	fv.pureMode++
+	nObl, nFacts := len(fv.obls), len(fv.facts)
+	v := fv.eval(ret.Results[0], s)
+	fv.pureMode--
+	fv.obls = fv.obls[:nObl]
+	fv.facts = fv.facts[:nFacts]
+	if v.S != SBoolS {
+		return "", false
+	}
+	return v.T, true
+}
+
+// permutationFacts: the array `after` (length n) is a permutation of `before`, witnessed by the
+// fresh bijection pi / pinv on [0,n).
+func (fv *FuncVC) permutationFacts(st *State, before, after, n string) (pi, pinv string) {
+	pi = fv.th.freshName("pi")
+	pinv = fv.th.freshName("pinv")
+	fv.th.declFun(pi, []Sort{SInt}, SInt)
+	fv.th.declFun(pinv, []Sort{SInt}, SInt)
+	fv.addFact(st, fmt.Sprintf("(forall ((i Int)) (! (=> (and (<= 0 i) (< i %s)) (and (<= 0 (%s i)) (< (%s i) %s) (= (select %s i) (select %s (%s i))) (= (%s (%s i)) i))) :pattern ((%s i)) :pattern ((select %s i))))",
+		n, pi, pi, n, after, before, pi, pinv, pi, pi, after))
+	fv.addFact(st, fmt.Sprintf("(forall ((i Int)) (! (=> (and (<= 0 i) (< i %s)) (and (<= 0 (%s i)) (< (%s i) %s) (= (%s (%s i)) i))) :pattern ((%s i)) :pattern ((select %s i))))",
+		n, pinv, pinv, n, pi, pinv, pinv, before))
+	return pi, pinv
+}
+
+// sort.Slice(x, less) / sort.SliceStable(x, less).
+// Assumed contract: afterwards x is a permutation of its old contents and no later element is
+// `less` than an earlier one; SliceStable additionally keeps the relative order of incomparable
+// elements. Side conditions generated as obligations: `less` is a strict weak order on the
+// elements (irreflexive, transitive, incomparability transitive) — otherwise the sort package
+// promises nothing.
+func (fv *FuncVC) sortSlice(call *ast.CallExpr, stable bool, st *State) ([]Val, bool) {
+	if len(call.Args) != 2 {
+		return nil, false
+	}
+	fl, ok := call.Args[1].(*ast.FuncLit)
+	if !ok {
+		return nil, false
+	}
+	xs := fv.eval(call.Args[0], st)
+	if xs.S != SSlice {
+		return nil, false
+	}
+	name := "sort.Slice"
+	if stable {
+		name = "sort.SliceStable"
+	}
+	fv.usedExterns[name+" (intrinsic): result is a permutation of the input with no inversion w.r.t. less"+map[bool]string{true: "; incomparable elements keep their order", false: ""}[stable]] = true
+	k := fv.nextOrd("call:" + name)
+	et := elemType(xs.GoT)
+	es := fv.th.sortOf(et)
+	h := fv.declSliceHeap(es)
+	ref := sx("sl_ref", xs.T)
+	n := sx("sl_len", xs.T)
+	H := fv.getHeap(st, h)
+	before := sx("select", H, ref)
+
+	// side condition: strict weak order, checked on an arbitrary array and arbitrary indices
+	{
+		arb := fv.th.freshConst("arb", arraySort(SInt, es))
+		s2 := st.clone()
+		fv.setHeapQuiet(s2, h, sx("store", H, ref, arb))
+		a, b, c := fv.th.freshConst("a", SInt), fv.th.freshConst("b", SInt), fv.th.freshConst("c", SInt)
+		laa, ok1 := fv.closureLess(fl, s2, a, a)
+		lab, _ := fv.closureLess(fl, s2, a, b)
+		lba, _ := fv.closureLess(fl, s2, b, a)
+		lbc, _ := fv.closureLess(fl, s2, b, c)
+		lcb, _ := fv.closureLess(fl, s2, c, b)
+		lac, _ := fv.closureLess(fl, s2, a, c)
+		lca, ok2 := fv.closureLess(fl, s2, c, a)
+		if !ok1 || !ok2 {
+			fv.note("comparison closure of %s is not a single return expression", name)
+			fv.havocHeap(st, h)
+			return nil, true
+		}
+		fv.oblig(st, "pre", fmt.Sprintf("pre:%s@%d:irreflexive", name, k), "less is irreflexive", mkNot(laa))
+		fv.oblig(st, "pre", fmt.Sprintf("pre:%s@%d:transitive", name, k), "less is transitive", mkImp(mkAnd(lab, lbc), lac))
+		fv.oblig(st, "pre", fmt.Sprintf("pre:%s@%d:incomparability", name, k), "incomparability under less is transitive",
+			mkImp(mkAnd(mkNot(lab), mkNot(lba), mkNot(lbc), mkNot(lcb)), mkAnd(mkNot(lac), mkNot(lca))))
+	}
+
+	after := fv.th.freshConst("sorted", arraySort(SInt, es))
+	fv.setHeap(st, h, sx("store", H, ref, after))
+	pi, _ := fv.permutationFacts(st, before, after, n)
+	// no inversion
+	lji, _ := fv.closureLess(fl, st, "j?s", "i?s")
+	fv.addFact(st, fmt.Sprintf("(forall ((i?s Int) (j?s Int)) (! (=> (and (<= 0 i?s) (< i?s j?s) (< j?s %s)) (not %s)) :pattern ((select %s i?s) (select %s j?s))))", n, lji, after, after))
+	if stable {
+		lij, _ := fv.closureLess(fl, st, "i?s", "j?s")
+		fv.addFact(st, fmt.Sprintf("(forall ((i?s Int) (j?s Int)) (! (=> (and (<= 0 i?s) (< i?s j?s) (< j?s %s) (not %s) (not %s)) (< (%s i?s) (%s j?s))) :pattern ((select %s i?s) (select %s j?s))))",
+			n, lij, lji, pi, pi, after, after))
+	}
+	return nil, true
+}
+
+// setHeapQuiet updates a heap without recording a store (used for hypothetical states).
+func (fv *FuncVC) setHeapQuiet(st *State, name, term string) { st.heaps[name] = term }
+
+// sort.Strings(x): permutation, non-decreasing w.r.t. the string order.
+func (fv *FuncVC) sortStrings(call *ast.CallExpr, st *State) ([]Val, bool) {
+	xs := fv.eval(call.Args[0], st)
+	if xs.S != SSlice {
+		return nil, false
+	}
+	fv.usedExterns["sort.Strings (intrinsic): result is a permutation of the input, non-decreasing"] = true
+	h := fv.declSliceHeap(SStr)
+	ref := sx("sl_ref", xs.T)
+	n := sx("sl_len", xs.T)
+	H := fv.getHeap(st, h)
+	before := sx("select", H, ref)
+	after := fv.th.freshConst("sorted", arraySort(SInt, SStr))
+	fv.setHeap(st, h, sx("store", H, ref, after))
+	fv.permutationFacts(st, before, after, n)
+	fv.addFact(st, fmt.Sprintf("(forall ((i?s Int) (j?s Int)) (! (=> (and (<= 0 i?s) (< i?s j?s) (< j?s %s)) (not (slt (select %s j?s) (select %s i?s)))) :pattern ((select %s i?s) (select %s j?s))))", n, after, after, after, after))
+	return nil, true
+}
+
+func (fv *FuncVC) sortSort(call *ast.CallExpr, st *State) ([]Val, bool) {
+	return nil, false
+}
+
+func (fv *FuncVC) mutexCall(call *ast.CallExpr, full string, st *State) ([]Val, bool) {
 	return nil, false
 }
 
